@@ -5,7 +5,7 @@
    block Go has after it.  [spec_class]: the chain of voxel-wise reference operations on the plain
    array gives the arrays Go's blocks decode to, and the reported sizes are the true counts. *)
 From DV Require Import Base.Prelude Base.Int Base.BitPack Model.Block Model.BlockViews Model.BlockRun
-     Model.BlockOps Gen.Consts.
+     Model.BlockOps Model.Downres Model.DownresRun Gen.Consts.
 Local Open Scope N_scope.
 
 Inductive op :=
@@ -14,7 +14,9 @@ Inductive op :=
 | OReplaceMany (m : list (N * N))
 | OSplit (target newLabel : N) (rles : list rle)
 | OSplitSV (sv splitSV remainSV : N) (rles : list rle)
-| OSplitSVs (rles : list rle) (sv : list (N * (N * N))).
+| OSplitSVs (rles : list rle) (sv : list (N * (N * N)))
+(* Block.Downres onto the current block (the receiver), eight optional octants given as arrays *)
+| ODown (octs : list (option (list paint))).
 
 (* what Go returned for one step: block bytes (None: nil block), two reported numbers, digest of
    the decoded result *)
@@ -54,6 +56,11 @@ Definition op_ref (o : op) (a : list N) (nx ny nz : N) (offx offy offz : Z) : op
   | OSplitSVs rles sv =>
     let a1 := map_under a nx ny nz offx offy offz rles (fun l => match assoc2 sv l with Some (s, _) => s | None => l end) in
     (Some (map (fun l => match assoc2 sv l with Some (_, r) => r | None => l end) a1), 0, 0)
+  | ODown octs =>
+    match dr_ref a (map (fun o => match o with Some ps => Some (expand nx ny nz ps) | None => None end) octs) nx ny nz with
+    | Ok a' => (Some a', 0, 0)
+    | _ => (None, 0, 0)
+    end
   end.
 
 (* ---- model step on Go's previous block ---- *)
@@ -108,6 +115,18 @@ Definition model_step (fixed : bool) (o : op) (b : block) (bx by_ bz : Z) (go : 
          (fun p => let '(b', k, s) := p in (Some b', k, s))
   | OSplitSVs rles sv =>
     lift (split_supervoxels (tbl_of (s_bytes go)) b bx by_ bz rles sv) (fun b' => (Some b', 0, 0))
+  | ODown octs =>
+    let nx := 8 * b_gx b in let ny := 8 * b_gy b in let nz := 8 * b_gz b in
+    match mapR (fun o : option (list paint) =>
+                  match o with
+                  | None => Ok None
+                  | Some ps => match encode_canon (expand nx ny nz ps) nx ny nz 0 0 0 (b_gx b) (b_gy b) (b_gz b) with
+                               | Ok ob => Ok (Some ob) | Err => Err | Panic => Panic end
+                  end) octs with
+    | Ok obs => lift (downres true (tbl_of (s_bytes go)) b obs) (fun b' => (Some b', 0, 0))
+    | Err => (Err, 0, 0)
+    | Panic => (Panic, 0, 0)
+    end
   end.
 
 Fixpoint chain_ok (fixed : bool) (prev : bytes) (bx by_ bz : Z) (ops : list op) (steps : list step) : bool :=
@@ -140,25 +159,42 @@ Definition model_ok (c : c10case) : bool :=
 
 (* ---- the property on Go's outputs ----
    0 holds; 1 panic; 2 decoded result differs from the reference; 3 reported size differs from the
-   true count; 4 an operation failed on a legal input; 5 nil/non-nil result disagrees *)
-Fixpoint chain_spec (a : list N) (nx ny nz : N) (offx offy offz : Z) (ops : list op) (steps : list step) : nat :=
+   true count; 4 an operation failed on a legal input; 5 nil/non-nil result disagrees;
+   6 (dedicated, known) relabelling label 0 on a block with uninitialised sub-blocks *)
+(* a client-made block with uninitialised sub-blocks (NumSBLabels = 0: voxels are 0 without a table slot) *)
+Definition has_uninit (bs : bytes) : bool :=
+  match unmarshal bs with Ok b => existsb (N.eqb 0) (b_nsb b) | _ => false end.
+
+(* does the operation relabel label 0? *)
+Definition touches_zero (o : op) : bool :=
+  match o with
+  | OMerge _ merged => mem 0 merged
+  | OReplace target _ => target =? 0
+  | OReplaceMany m => match assoc m 0 with Some _ => true | None => false end
+  | _ => false
+  end.
+
+Fixpoint chain_spec (prev : bytes) (a : list N) (nx ny nz : N) (offx offy offz : Z) (ops : list op) (steps : list step) : nat :=
   match ops, steps with
   | o :: ops', st :: steps' =>
     let '(oa, n1, n2) := op_ref o a nx ny nz offx offy offz in
+    (* known finding (class 6): a table edit of label 0 does not reach the implicit zeros of
+       uninitialised sub-blocks *)
+    let known := has_uninit prev && touches_zero o in
     match s_bytes st with
     | Panic => 1%nat
     | Err => 4%nat
     | Ok None => match oa with
-                 | None => chain_spec a nx ny nz offx offy offz ops' steps'
+                 | None => chain_spec prev a nx ny nz offx offy offz ops' steps'
                  | Some _ => 5%nat
                  end
-    | Ok (Some _) =>
+    | Ok (Some bs) =>
       match oa with
       | None => 5%nat
       | Some a' =>
-        if negb (s_dec st =? digest a') then 2%nat
-        else if negb ((n1 =? s_n1 st) && (n2 =? s_n2 st)) then 3%nat
-        else chain_spec a' nx ny nz offx offy offz ops' steps'
+        if negb (s_dec st =? digest a') then (if known then 6%nat else 2%nat)
+        else if negb ((n1 =? s_n1 st) && (n2 =? s_n2 st)) then (if known then 6%nat else 3%nat)
+        else chain_spec bs a' nx ny nz offx offy offz ops' steps'
       end
     end
   | _, _ => 0%nat
@@ -169,7 +205,7 @@ Definition spec_class (c : c10case) : nat :=
   | CChain gx gy gz ps bx by_ bz go0 ops steps =>
     let nx := 8 * gx in let ny := 8 * gy in let nz := 8 * gz in
     match go0 with
-    | Ok _ => chain_spec (expand nx ny nz ps) nx ny nz (bx * Z.of_N nx)%Z (by_ * Z.of_N ny)%Z (bz * Z.of_N nz)%Z ops steps
+    | Ok bs0 => chain_spec bs0 (expand nx ny nz ps) nx ny nz (bx * Z.of_N nx)%Z (by_ * Z.of_N ny)%Z (bz * Z.of_N nz)%Z ops steps
     | Err => 4%nat
     | Panic => 1%nat
     end
